@@ -118,7 +118,9 @@ def check_one(ck: Check, s: str, dec: str, gen: tuple[str, Any]) -> None:
 def explore(ck: Check, max_len: int, n_random: int) -> None:
     rng = ck.rng
     strings: list[str] = ["9#9", "99(3)9", "9(0)", "x(5)", "X(5)", "S9(5)V99", "s9(5)v99", "9(3)", "999", "ſ9", "SV9", "P",
-                          "B(3)", "ZZ9.99", "$$$,$$9.99CR", "+999", "9(0003)", "9(3", "9)3(", "()", "DB", "D", "CR9"]
+                          "B(3)", "ZZ9.99", "$$$,$$9.99CR", "+999", "9(0003)", "9(3", "9)3(", "()", "DB", "D", "CR9",
+                          # a zero repeat count next to elements that do occupy positions
+                          "9(3)V9(0)", "9(0)V9(2)", "X(0)X", "XX(00)", "S9(0)", "$9(0)", "-X(0)", "x(0).9(1)", "9(2)9(0)9", "A(0)9(4)"]
     for L in range(1, max_len + 1):
         for tup in itertools.product(ALPHABET, repeat=L):
             strings.append("".join(tup))
@@ -128,7 +130,7 @@ def explore(ck: Check, max_len: int, n_random: int) -> None:
         parts = []
         for _ in range(rng.randint(1, 6)):
             c = rng.choice("AX9Z0" * 3 + "S+-$,/*BV.")
-            parts.append(c + (f"({rng.choice([1, 2, 3, 5, 10, 18, 31, rng.randint(1, 40)])})" if c in "AX9Z0" and rng.random() < 0.5 else ""))
+            parts.append(c + (f"({rng.choice([1, 2, 3, 5, 10, 18, 31, rng.randint(1, 40)] + ([0, 0] if rng.random() < 0.15 else []))})" if c in "AX9Z0" and rng.random() < 0.5 else ""))
         p = "".join(parts)
         strings.append(p)
         strings.append(p.lower())
